@@ -486,6 +486,48 @@ def check_paths(fx, R, cq, cname):
                 return tuple(resolve(y_, depth) if n_ else y_ for n_, y_ in enumerate(t))
             return t
         rres = [resolve(r_) for r_ in rets]
+        # a local the result is built from may be ASSIGNED on several branches (`estimate = ...` in an if / else): each assigned form gives one variant of the returned expression
+        assigned = {}
+        for s_ in st:
+            if s_[0] == 'expr' and isinstance(s_[1], tuple) and len(s_[1]) == 3 and s_[1][0] == '=' and isinstance(s_[1][1], str) and not s_[1][1].startswith('this.'):
+                assigned.setdefault(s_[1][1], []).append(s_[1][2])
+        if assigned:
+            def subst(t, nm, v):
+                if t == nm:
+                    return v
+                if isinstance(t, tuple):
+                    return tuple(subst(y_, nm, v) if n_ else y_ for n_, y_ in enumerate(t))
+                return t
+            for nm in assigned:
+                locs_.pop(nm, None)                  # `Vector estimate;` followed by assignments: the declaration is not the value
+            variants = [resolve(r_) for r_ in rets]
+            for nm, vs in assigned.items():
+                variants = [subst(r_, nm, resolve(v_)) for r_ in variants for v_ in vs] if any(contains_name(r_, nm) for r_ in variants) else variants
+            twice = None
+            for v_ in variants:
+                def sibling(t):
+                    if isinstance(t, tuple):
+                        if t and isinstance(t[0], str) and t[0].startswith('.estimateUsing') and len(t) == 2 and t[1] == 'this':
+                            return t[0].lstrip('.')
+                        for y_ in t:
+                            r__ = sibling(y_)
+                            if r__:
+                                return r__
+                    return None
+                sb = sibling(v_)
+                if sb and (contains_name(v_, 'this.Ac_') or contains_name(v_, 'this.Bc_')):
+                    sib_f = fx.one(cq + '::' + sb)
+                    sib_rets = [s2_[1] for s2_ in stmts_sx(sib_f) if s2_[0] == 'return'] if sib_f is not None else []
+                    if sib_rets and all(contains_name(r2_, 'this.Ac_') or contains_name(r2_, 'this.Bc_') for r2_ in sib_rets):
+                        twice = (sb, v_)
+            if twice:
+                R.violated('L3', inst + ':result:preconditioner-twice', 'on the path where the result is taken from %s() the function returns `%s`: %s() already returns A x + b, so the caller gets A (A x + b) + b - the '
+                           'configured preconditioner is applied twice (identity preconditioners hide it).  That path is selected by a run-time test (conditioning of the normal matrix), so the two solver paths '
+                           'agree for well-conditioned problems only' % (twice[0], str(twice[1])[:120], twice[0]), fx.rel(f['loc']), 'E-SIB')
+                rres = []
+                rets = []
+            else:
+                rres = variants
         guards = [s_[1] for s_ in st if s_[0] == 'if']
         partial = [r_ for r_ in rres if not contains_name(r_, 'this.Bc_') and contains_name(r_, 'this.inverseJtJ_') and contains_name(r_, 'this.JtY_')]
         full = [r_ for r_ in rres if all(contains_name(r_, n_) for n_ in ('this.Ac_', 'this.Bc_', 'this.inverseJtJ_', 'this.JtY_'))]
@@ -509,7 +551,9 @@ def check_paths(fx, R, cq, cname):
                 absent.remove('this.inverseJtJ_')
                 if not absent:
                     R.holds('L3', inst + ':result', 'x = A solve(JtJ, JtY) + b (the factorisation is applied directly)', fx.rel(f['loc']), 'E-SIB')
-            if not absent and rres and all(solves_normal(r_) for r_ in rres):
+            if not rres:
+                pass
+            elif not absent and rres and all(solves_normal(r_) for r_ in rres):
                 pass
             elif absent:
                 R.violated('L3', inst + ':result', 'the returned expression %s does not use %s: the %s is not applied on this path' % (
@@ -649,6 +693,24 @@ def check_weight_precond(fx, R, cq, cname):
         ok = st in ([('expr', ('.weightJAndY_', 'this')), ('return', ('.estimateUsingCholeskyDecomposition', 'this'))],
                     [('expr', ('.weightJAndY_', 'this')), ('return', ('.estimateUsingSVD', 'this'))])
         rd, wr, _ = effects(fx, cq, fwe)
+        # the weights are the CALLER's (set once through getW(), J and Y refilled for every problem): the weighted solve must leave them as they are.  A local declared `auto` from a
+        # head()/block()/array() of W_ is a writable VIEW of W_, not a copy: assigning to it overwrites the weights
+        wview = None
+        for x_ in walk(fwe['body']):
+            if isinstance(x_, dict) and x_.get('k') == 'Decl':
+                for v_ in x_['vars']:
+                    ts_ = (v_.get('t') or {}).get('s', '')
+                    if v_.get('init') is not None and ts_.startswith(('Eigen::ArrayWrapper<Eigen::Block<Eigen::Matrix', 'Eigen::Block<Eigen::Matrix', 'Eigen::VectorBlock<Eigen::Matrix', 'Eigen::MatrixWrapper<Eigen::Block<Eigen::Matrix')) \
+                            and 'this.W_' in pp(v_['init']):
+                        stores = [y_ for y_ in walk(fwe['body']) if isinstance(y_, dict) and ((y_.get('k') == 'Bin' and y_.get('op', '').endswith('=') and y_.get('op') not in ('==', '!=', '<=', '>=') and strip_casts(y_['l']).get('id') == v_['id'])
+                                                                                              or (y_.get('k') == 'Op' and y_.get('op') in ('=', '+=', '-=', '*=', '/=') and y_.get('args') and strip_casts(y_['args'][0]).get('id') == v_['id']))]
+                        if stores:
+                            wview = (v_['name'], ts_, stores[0])
+        if wview or 'this.W_' in wr:
+            R.violated('L4', cname.split('<')[0] + '::weightedEstimate:weights-overwritten', 'weightedEstimate() overwrites the weight buffer W_%s: the weights are the caller\'s, set once through getW() while J and Y are '
+                       'refilled for each problem; the first weighted solve is right, the next one on the same object runs with the modified weights (w^2, then w^4 ...) - not the minimiser of sum (w_i r_i)^2 for the '
+                       'weights that were configured, and not the answer of a fresh solver' % (' through `%s`, a local of type %s: a writable view of W_, not a copy (`%s`)' % (wview[0], wview[1][:60], pp(wview[2])[:80]) if wview else ''),
+                       fx.rel((wview[2] if wview else fwe).get('loc') or fwe['loc']), 'E-STATE')
         if ok:
             R.holds('L4', cname + '::weightedEstimate', 'weights applied before the estimate', fx.rel(fwe['loc']), 'E-STATE')
         elif 'this.W_' not in rd:
